@@ -13,6 +13,7 @@ deal handed to a fresh generator of an honest member with the same long-term key
 concurrently: all dealing, then every deal stage, then every response stage.
 -/
 import DosModel.Model.DkgSim
+import DosModel.Model.DkgAdv
 
 namespace Dos.DkgHist
 open Dos Dos.Vss Dos.Dkg Dos.DkgSim
@@ -60,18 +61,14 @@ def mkSession (n b s : Nat) (spec : String) : HSession :=
   ⟨ms, bd⟩
 
 /-- **the oracle**: the response honest member `m` gives, in a run of its own with the same long-term
-key and member list, to the deal `D.<claim>.<sealer>.<m>.<variant>` (`DistKeyGenerator.ProcessDeal`) -/
+key and member list, to the deal `D.<claim>.<sealer>.<m>.<variant>` (`Model/DkgAdv.lean` `oracleAnswer`) -/
 def oracleQuery (n : Nat) (q : String) : Option (DkgResp S P) :=
   let f := q.splitOn ":"
   let a (k : Nat) : Nat := parseNat (f.getD k "")
   let m := a 0
   if m < n then
-    match newGen g (longOf0 m) (L n) (polyOf 7777 (thr n) m) with
-    | .ok d =>
-      match (processDeal g d (advDeal [] n (a 1) (a 2) m (String.intercalate ":" (f.drop 3)))).2 with
-      | .ok r => some r
-      | .error _ => none
-    | .error _ => none
+    oracleAnswer g (longOf0 m) (L n) (polyOf 7777 (thr n) m)
+      (advDeal [] n (a 1) (a 2) m (String.intercalate ":" (f.drop 3)))
   else none
 
 def refOr (f : List String) (k def_ : Nat) : Nat := if k < f.length then parseNat (f.getD k "") else def_
